@@ -407,6 +407,42 @@ func GenLeaf(r *rand.Rand, co *Corpus, kind string) *Q {
 	panic("unknown leaf kind " + kind)
 }
 
+// GenWideQuery generates a boolean query whose should or must-not list has more than ten
+// clauses (the disjunction searcher switches from its slice to its heap implementation there),
+// some of them composite (nested booleans, phrases), driven by a must clause or an enclosing
+// conjunction so that the wide disjunction is advanced, not just iterated.
+func GenWideQuery(r *rand.Rand, co *Corpus, o QueryOpts) *Q {
+	n := 11 + r.Intn(5)
+	var wide []*Q
+	for i := 0; i < n; i++ {
+		switch r.Intn(5) {
+		case 0:
+			wide = append(wide, GenQuery(r, co, o, 1))
+		case 1:
+			wide = append(wide, GenLeaf(r, co, "matchphrase"))
+		default:
+			wide = append(wide, GenLeaf(r, co, "term"))
+		}
+	}
+	b := &Q{Kind: "bool"}
+	switch r.Intn(4) {
+	case 0: // must + wide should
+		b.Must = []*Q{GenLeaf(r, co, "term")}
+		b.Should = wide
+		b.MinShould = r.Intn(3)
+	case 1: // must + wide must-not
+		b.Must = []*Q{GenQuery(r, co, o, 1)}
+		b.MustNot = wide
+	case 2: // wide should inside an outer conjunction
+		inner := &Q{Kind: "bool", Should: wide, MinShould: 1 + r.Intn(2)}
+		b.Must = []*Q{GenLeaf(r, co, "term"), inner}
+	default: // wide should alone, with a minimum
+		b.Should = wide
+		b.MinShould = 1 + r.Intn(3)
+	}
+	return b
+}
+
 // GenQuery generates a query tree of at most the given depth.
 func GenQuery(r *rand.Rand, co *Corpus, o QueryOpts, depth int) *Q {
 	if depth <= 0 || r.Intn(10) < 4 {
